@@ -339,6 +339,11 @@ func c12Run(c *fw.Ctx) {
 			seen := map[string]int{}
 			for _, h := range hits {
 				seen[h.Path]++
+				if h.BodyErr != "" {
+					// broken off by the sender, and visibly so at the upstream: not a request that was forwarded
+					c.Res.Count("uploads_broken_off_visibly", 1)
+					continue
+				}
 				want := bodyOf[h.Path]
 				if !bytes.Equal(h.Body, want) {
 					first := 0
@@ -477,6 +482,10 @@ func c12Run(c *fw.Ctx) {
 			}
 			// every request the upstream received is judged (there is more than one only if the proxy re-sent it)
 			for hi, h := range resp.Hits {
+				if sc.large && h.BodyErr != "" {
+					c.Res.Count("uploads_broken_off_visibly", 1)
+					continue
+				}
 				cause := c12Cause(bc.name, conn, method)
 				if hi > 0 {
 					cause = "re-sent-request/" + cause
